@@ -375,3 +375,148 @@ Example f_ceil_samples :
 Proof. vm_compute. reflexivity. Qed.
 (* float prices (not the declared type): the product is rounded before the ceiling, so a price with a large
    numerator can under-estimate by one lovelace; mainnet-size numerators cannot (needs steps*numerator >= 2^52) *)
+
+(* ------------------------------------------------------------------ the UTxOs a transaction touches *)
+Import Touched.
+
+Lemma oref_eqb_eq a b : oref_eqb a b = true <-> a = b.
+Proof.
+  destruct a as [i n], b as [j m]. unfold oref_eqb. cbn [fst snd]. rewrite andb_true_iff, bytes_eqb_eq, N.eqb_eq.
+  split; [intros [-> ->]; reflexivity | intros E; inversion E; auto].
+Qed.
+Lemma oref_eqb_refl a : oref_eqb a a = true.
+Proof. now apply oref_eqb_eq. Qed.
+Lemma oref_eqb_sym a b : oref_eqb a b = oref_eqb b a.
+Proof.
+  destruct (oref_eqb a b) eqn:E, (oref_eqb b a) eqn:F; try reflexivity.
+  - apply oref_eqb_eq in E. subst. now rewrite oref_eqb_refl in F.
+  - apply oref_eqb_eq in F. subst. now rewrite oref_eqb_refl in E.
+Qed.
+Lemma futxo_eqb_refl u : futxo_eqb u u = true.
+Proof.
+  unfold futxo_eqb. rewrite oref_eqb_refl. cbn [andb].
+  destruct (fu_script u), (fu_key u); cbn [optZ_eqb optB_eqb andb]; rewrite ?Z.eqb_refl, ?bytes_eqb_refl; reflexivity.
+Qed.
+
+Lemma resolve_ref tbl : forall r u, resolve tbl r = Some u -> fu_ref u = r.
+Proof.
+  induction tbl as [|x t IH]; cbn [resolve]; intros r u H; [discriminate|].
+  destruct (oref_eqb (fu_ref x) r) eqn:E.
+  - inversion H; subst. now apply oref_eqb_eq.
+  - now apply IH.
+Qed.
+
+(* two UTxOs taken from one UTxO set are equal (UTxO.__eq__) exactly when their references are *)
+Lemma futxo_eqb_resolved tbl r1 r2 u1 u2 :
+  resolve tbl r1 = Some u1 -> resolve tbl r2 = Some u2 -> futxo_eqb u1 u2 = oref_eqb r1 r2.
+Proof.
+  intros H1 H2. destruct (oref_eqb r1 r2) eqn:E.
+  - apply oref_eqb_eq in E. subst. rewrite H1 in H2. inversion H2; subst. apply futxo_eqb_refl.
+  - unfold futxo_eqb. rewrite (resolve_ref _ _ _ H1), (resolve_ref _ _ _ H2), E. reflexivity.
+Qed.
+
+Lemma fu_mem_resolved tbl r u : resolve tbl r = Some u ->
+  forall seenR seen, resolve_all tbl seenR = Some seen -> fu_mem u seen = omem r seenR.
+Proof.
+  intros Hr. induction seenR as [|s t IH]; cbn [resolve_all]; intros seen H.
+  - inversion H. reflexivity.
+  - destruct (resolve tbl s) as [us|] eqn:Es; [|discriminate].
+    destruct (resolve_all tbl t) as [ut|] eqn:Et; [|discriminate]. inversion H; subst.
+    unfold fu_mem, omem. cbn [existsb]. rewrite (futxo_eqb_resolved _ _ _ _ _ Hr Es).
+    f_equal. apply (IH _ eq_refl).
+Qed.
+
+Lemma resolve_all_app tbl : forall a b ua ub, resolve_all tbl a = Some ua -> resolve_all tbl b = Some ub ->
+  resolve_all tbl (a ++ b) = Some (ua ++ ub).
+Proof.
+  induction a as [|r t IH]; cbn [resolve_all app]; intros b ua ub Ha Hb.
+  - inversion Ha. exact Hb.
+  - destruct (resolve tbl r) as [u|]; [|discriminate].
+    destruct (resolve_all tbl t) as [ut|] eqn:Et; [|discriminate]. inversion Ha; subst.
+    rewrite (IH _ _ _ eq_refl Hb). reflexivity.
+Qed.
+
+Lemma ref_size_loop_spec tbl : forall rs us seenR seen acc,
+  resolve_all tbl rs = Some us -> resolve_all tbl seenR = Some seen ->
+  ref_size_loop seen us acc = acc + fold_right Z.add 0 (map (script_bytes_at tbl) (distinct_from seenR rs)).
+Proof.
+  induction rs as [|r t IH]; cbn [resolve_all]; intros us seenR seen acc Hu Hs.
+  - inversion Hu. cbn. lia.
+  - destruct (resolve tbl r) as [u|] eqn:Er; [|discriminate].
+    destruct (resolve_all tbl t) as [ut|] eqn:Et; [|discriminate]. inversion Hu; subst.
+    cbn [ref_size_loop distinct_from]. rewrite (fu_mem_resolved _ _ _ Er _ _ Hs).
+    destruct (omem r seenR) eqn:Em.
+    + apply IH; [reflexivity | assumption].
+    + rewrite (IH ut (r :: seenR) (u :: seen)); [| reflexivity | cbn [resolve_all]; rewrite Er, Hs; reflexivity].
+      cbn [map fold_right]. unfold script_bytes_at at 2. rewrite Er. destruct (fu_script u); lia.
+Qed.
+
+(* `_ref_script_size` on the UTxO objects the builder holds = the ledger's non-distinct reference-script bytes of the
+   transaction that spends / references them, whatever scripts they carry and however often a UTxO is listed *)
+Theorem ref_size_ledger tbl ins refs uins urefs :
+  resolve_all tbl ins = Some uins -> resolve_all tbl refs = Some urefs ->
+  builder_ref_size uins urefs = ref_script_bytes tbl ins refs.
+Proof.
+  intros Hi Hr. unfold builder_ref_size, ref_script_bytes, distinct.
+  rewrite (ref_size_loop_spec tbl (ins ++ refs) (uins ++ urefs) [] [] 0 (resolve_all_app _ _ _ _ _ Hi Hr) eq_refl). lia.
+Qed.
+
+(* the specification sums over a SET: [distinct] has no repetition and the same members *)
+Lemma distinct_from_In : forall l seen x, In x (distinct_from seen l) <-> (In x l /\ omem x seen = false).
+Proof.
+  induction l as [|r t IH]; cbn [distinct_from]; intros seen x.
+  - cbn. tauto.
+  - destruct (omem r seen) eqn:Em.
+    + rewrite IH. cbn [In]. split; [tauto|]. intros [[->|H] Hx]; [congruence | tauto].
+    + cbn [In]. rewrite IH. unfold omem at 1. cbn [existsb]. fold (omem x seen). rewrite orb_false_iff. split.
+      * intros [->|[H [_ Hx]]]; [split; [now left | exact Em] | tauto].
+      * intros [[->|H] Hx]; [now left|]. destruct (oref_eqb x r) eqn:E; [apply oref_eqb_eq in E; subst; now left | tauto].
+Qed.
+Lemma distinct_from_NoDup : forall l seen, NoDup (distinct_from seen l).
+Proof.
+  induction l as [|r t IH]; cbn [distinct_from]; intros seen; [constructor|].
+  destruct (omem r seen); [apply IH|]. constructor; [|apply IH].
+  rewrite distinct_from_In. intros [_ H]. unfold omem in H. cbn [existsb] in H. now rewrite oref_eqb_refl in H.
+Qed.
+Theorem distinct_is_set l : NoDup (distinct l) /\ forall x, In x (distinct l) <-> In x l.
+Proof.
+  split; [apply distinct_from_NoDup|]. intros x. unfold distinct. rewrite distinct_from_In. cbn. tauto.
+Qed.
+
+Lemma flat_map_keys_resolved tbl : forall rs us, resolve_all tbl rs = Some us ->
+  flat_map fu_keys us = flat_map (keys_at tbl) rs.
+Proof.
+  induction rs as [|r t IH]; cbn [resolve_all]; intros us H.
+  - inversion H. reflexivity.
+  - destruct (resolve tbl r) as [u|] eqn:Er; [|discriminate].
+    destruct (resolve_all tbl t) as [ut|] eqn:Et; [|discriminate]. inversion H; subst.
+    cbn [flat_map]. unfold keys_at at 1. rewrite Er. f_equal. now apply IH.
+Qed.
+
+(* one placeholder witness per key the ledger asks a witness for, when the count is taken on the inputs and
+   collateral inputs of the final body *)
+Theorem witness_count_ledger tbl ins coll uins ucoll req skeys :
+  resolve_all tbl ins = Some uins -> resolve_all tbl coll = Some ucoll ->
+  builder_witness_count uins ucoll req skeys = Z.of_nat (List.length (needed_keys tbl ins coll req skeys)).
+Proof.
+  intros Hi Hc. unfold builder_witness_count, needed_keys.
+  now rewrite (flat_map_keys_resolved tbl _ _ (resolve_all_app _ _ _ _ _ Hi Hc)).
+Qed.
+
+(* Why a count taken BEFORE the builder appended the collateral it chose is not enough: the final transaction
+   carries one more witness than the estimate had placeholders for. *)
+Definition ex_tbl : list futxo :=
+  [ {| fu_id := hx "11"; fu_ix := 0; fu_script := None; fu_key := None |};                 (* script-locked, pays *)
+    {| fu_id := hx "22"; fu_ix := 1; fu_script := None; fu_key := Some (hx "09") |};       (* the collateral *)
+    {| fu_id := hx "33"; fu_ix := 0; fu_script := Some 3000; fu_key := Some (hx "07") |};  (* carries a script *)
+    {| fu_id := hx "44"; fu_ix := 0; fu_script := Some 3000; fu_key := Some (hx "07") |} ].
+Example stale_witness_count :
+  builder_witness_count [ {| fu_id := hx "11"; fu_ix := 0; fu_script := None; fu_key := None |} ] [] [] [] = 0 /\
+  List.length (needed_keys ex_tbl [(hx "11", 0%N)] [(hx "22", 1%N)] [] []) = 1%nat.
+Proof. vm_compute. split; reflexivity. Qed.
+(* non-vacuity of ref_size_ledger, and the point of "non-distinct": the same 3000-byte script on two spent UTxOs and
+   a UTxO listed twice *)
+Example ref_size_two_copies :
+  resolve_all ex_tbl [(hx "33", 0%N); (hx "44", 0%N)] <> None /\
+  ref_script_bytes ex_tbl [(hx "33", 0%N); (hx "44", 0%N)] [(hx "33", 0%N)] = 6000.
+Proof. vm_compute. split; [discriminate | reflexivity]. Qed.
